@@ -49,7 +49,8 @@ def main(ctx):
     failed = ctx.prove(GROUP, "Props_C21", THEOREMS)
     env = {"C21_DIR": os.path.join(vf.CACHE, "c21-work")}
     inputs = ctx.replay_inputs()
-    for profile in ("release", "debug"):
+    profiles = [p for p in os.environ.get("VERIF_PROFILES", "release,debug").split(",") if p in ("release", "debug")]
+    for profile in profiles:   # VERIF_PROFILES=release restricts a development / mutation run to one build
         bindir = ctx.harness(GROUP, profile=profile, bins=["c21"], hooks=False)
         if inputs is None:
             # one generated input set (from the release binary), executed in both profiles
